@@ -460,6 +460,18 @@ async fn run(scn: Value) -> Value {
                 pgcat::verif_hooks::release(actor);
                 mockpg::log_event(&log, json!({"who": "harness", "ev": "hook_released", "actor": actor}));
             }
+            // C11 (additive): wait until at least n pgcat client tasks have ended (their results are
+            // recorded by a watcher task a moment after the socket closes)
+            "wait_tasks" => {
+                let t0 = std::time::Instant::now();
+                let to = step["timeout_ms"].as_u64().unwrap_or(5000);
+                let n = step["n"].as_u64().unwrap_or(1) as usize;
+                while ctx.pooler.as_ref().unwrap().task_results.lock().len() < n && (t0.elapsed().as_millis() as u64) < to {
+                    tokio::time::sleep(std::time::Duration::from_millis(1)).await;
+                }
+                let have = ctx.pooler.as_ref().unwrap().task_results.lock().len();
+                mockpg::log_event(&log, json!({"who": "harness", "ev": "wait_tasks", "have": have, "want": n, "ms": t0.elapsed().as_millis() as u64}));
+            }
             "wait_exit" => {
                 let t0 = std::time::Instant::now();
                 let to = step["timeout_ms"].as_u64().unwrap_or(5000);
